@@ -333,6 +333,8 @@ class CentrallyBin(Factory, Container):
 
     @inheritdoc(Container)
     def __add__(self, other):
+        if not isinstance(other, CentrallyBin):
+            raise ContainerException(f"cannot add {self.name} and {other.name}")
         if self.centers != other.centers:
             raise ContainerException(
                 f"cannot add CentrallyBin because centers are different:\n    {self.centers}\nvs\n    {other.centers}"
